@@ -2,6 +2,7 @@ import Driver.Json
 import Driver.Framing
 import Driver.Mux
 import Driver.Store
+import Driver.Codec
 open Lean Drv
 
 def dispatch (cmd : String) (j : Json) : Except String Json :=
@@ -17,6 +18,8 @@ def dispatch (cmd : String) (j : Json) : Except String Json :=
   | "wf" => cmdWf j
   | "sort" => cmdSort j
   | "store" => cmdStore j
+  | "encode" => cmdEncode j
+  | "decode" => cmdDecode j
   | _ => throw "bad-case"
 
 def handleLine (line : String) : String :=
